@@ -73,6 +73,8 @@ var c20Binds = []struct{ key, action string }{
 	// one key: the cursor leaves the line, something restarts the preview there, the cursor comes back - the
 	// renderer only ever sees the line it knew
 	{"alt-2", "execute-silent(EXQ)"},
+	// a foreground command with the terminal handed over: fzf redraws everything by itself when it ends
+	{"alt-3", "execute(EXQ)"},
 	{"alt-y", "down+refresh-preview+up"}, {"alt-z", "up+change-preview(PV3 " + c20Template + ")+down"}, {"alt-1", "down+toggle-preview+toggle-preview+up"},
 }
 
@@ -195,6 +197,14 @@ func genC20Plan(r *zsim.Rng) *sysPlan {
 		if r.Chance(1, 4) {
 			p.Events = append(p.Events, sysEvent{Kind: "settle"})
 		}
+	}
+	if narrowWide && r.Bool() {
+		// the window is hidden by the threshold, the cursor moves on, a foreground command runs - and the
+		// terminal gets wide again while it does: the window comes back in the redraw at the end of the command
+		p.Events = append(p.Events, sysEvent{Kind: "settle"}, sysEvent{Kind: "resize", Cols: r.Range(20, 39), Rows: r.Range(10, 40)}, sysEvent{Kind: "settle"},
+			sysEvent{Kind: "keys", Keys: pick(r, "alt-a", "alt-b", "alt-d", "alt-c")}, sysEvent{Kind: "settle"},
+			sysEvent{Kind: "keys", Keys: pick(r, "alt-3", "alt-3", "alt-2")},
+			sysEvent{Kind: "resize", Cols: r.Range(41, 120), Rows: r.Range(10, 40), DelayMs: r.Range(100, 800)})
 	}
 	p.Events = append(p.Events, sysEvent{Kind: "settle"})
 	end := sysEvent{Kind: "keys", DelayMs: []int{0, 10, 200, 520}[r.Intn(4)], Keys: pick(r, "enter", "esc", "ctrl-c")}
